@@ -44,6 +44,7 @@ func checkC02(ctx *Ctx, r *Report) {
 	c02GoFieldNamesNotMethods(ctx, r)
 	c09GoEnvelopeConstants(ctx, r)
 	c14GoConverterBuffer(ctx, r)
+	c11FifthRound(ctx, r)
 	c02RuntimeGuard(ctx, r)
 	c02SortedSearch(ctx, r)
 	c02SortedSearchSelfTest(ctx, r)
